@@ -73,7 +73,7 @@ fn raw_put<K: SimKey>(w: &World<K>, k: usize, c: usize, chunks: &[usize], abort:
     })
 }
 
-pub fn run_err<K: SimKey>(case: &Case, site: &SiteSel, errno: i32, suffix_seed: u64) -> Outcome {
+pub fn run_err<K: SimKey>(case: &Case, site: &SiteSel, errno: i32, suffix_seed: u64, second_gap: Option<u64>) -> Outcome {
     let mut out = Outcome::default();
     // ---- dry run: count the fallible mutating calls per operation --------------------------------
     let mut t = traced_run::<K>(case, &mut out, false);
@@ -120,7 +120,7 @@ pub fn run_err<K: SimKey>(case: &Case, site: &SiteSel, errno: i32, suffix_seed: 
     };
     for k in sites {
         out.counters.err_sites += 1;
-        if let Some(f) = one_site::<K>(case, k, errno, mix(suffix_seed, k), &op_ranges, &mut out) {
+        if let Some(f) = one_site::<K>(case, k, errno, mix(suffix_seed, k), second_gap, &op_ranges, &mut out) {
             out.violation = Some(f);
             break;
         }
@@ -131,7 +131,7 @@ pub fn run_err<K: SimKey>(case: &Case, site: &SiteSel, errno: i32, suffix_seed: 
     out
 }
 
-fn one_site<K: SimKey>(case: &Case, site: u64, errno: i32, sseed: u64, op_ranges: &[(u32, u64, u64)], out: &mut Outcome) -> Option<Failure> {
+fn one_site<K: SimKey>(case: &Case, site: u64, errno: i32, sseed: u64, second_gap: Option<u64>, op_ranges: &[(u32, u64, u64)], out: &mut Outcome) -> Option<Failure> {
     let wl = &case.workload;
     let base = fresh_dir();
     let mut sim = Sim::new(&base, 11);
@@ -147,11 +147,19 @@ fn one_site<K: SimKey>(case: &Case, site: u64, errno: i32, sseed: u64, op_ranges
     sim.plan.fail_at = Some(site);
     // EMFILE only makes sense for calls that allocate a descriptor; otherwise use EIO
     sim.plan.fail_errno = errno;
+    // an optional second failing call, in a later operation (armed once the faulted operation has
+    // returned, disarmed before the final clean restarts): two failed operations in a row on the
+    // same segment writer / staging directory / snapshot path
+    sim.plan.second_gap = second_gap;
     interpose::install(sim);
     let mut w = World::<K>::new(&base, wl);
     w.set_monitor_expectations = false;
     let nk = w.keys.len();
-    let tag = format!("site={site} errno={errno}");
+    let tag = match second_gap {
+        Some(g) => format!("site={site} errno={errno} second=+{g}"),
+        None => format!("site={site} errno={errno}"),
+    };
+    let arm = || with_sim(|s| if s.fired_at.is_some() { s.second_armed = true });
     let faulted_op = op_ranges.iter().find(|(_, a, b)| site >= *a && site < *b).map(|(op, _, _)| *op).unwrap_or(OPEN_OP);
     let mut result: Option<Failure> = None;
     let mut poss: Poss = vec![[None].into_iter().collect(); nk];
@@ -193,6 +201,7 @@ fn one_site<K: SimKey>(case: &Case, site: u64, errno: i32, sseed: u64, op_ranges
             Ok(Ok(())) => {}
         }
         w.exact_files = fired().is_none();
+        arm();
         // ---- the history -----------------------------------------------------------------------
         for (i, op) in wl.ops.iter().enumerate() {
             let is_faulted = faulted_op as usize == i && fired().is_none();
@@ -214,6 +223,7 @@ fn one_site<K: SimKey>(case: &Case, site: u64, errno: i32, sseed: u64, op_ranges
             if fired().is_some() {
                 w.exact_files = false;
             }
+            arm();
             if let Err(f) = r {
                 result = Some(f);
                 break 'run;
@@ -252,6 +262,7 @@ fn one_site<K: SimKey>(case: &Case, site: u64, errno: i32, sseed: u64, op_ranges
             }
         }
         // ---- clean reopen, which must succeed --------------------------------------------------
+        with_sim(|s| s.second_armed = false);
         w.readers.clear();
         w.close();
         let r = catch_unwind(AssertUnwindSafe(|| w.open_raw(&cfg)));
@@ -310,6 +321,9 @@ fn one_site<K: SimKey>(case: &Case, site: u64, errno: i32, sseed: u64, op_ranges
         out.fingerprints.push(crate::rng::mix_str(faulted_op as u64, &format!("{}:{}", call.name(), crate::sim::role_of(rel))));
         *out.site_counts.entry(format!("fault:{}:{}", call.name(), crate::sim::role_of(rel))).or_insert(0) += 1;
     }
+    if let Some((_, call, rel)) = &sim.second_fired {
+        *out.site_counts.entry(format!("fault2:{}:{}", call.name(), crate::sim::role_of(rel))).or_insert(0) += 1;
+    }
     out.faults.err_fired += sim.counts.err_fired;
     out.counters.mutating_calls += sim.step;
     out.counters.events += sim.events;
@@ -330,6 +344,10 @@ fn one_site<K: SimKey>(case: &Case, site: u64, errno: i32, sseed: u64, op_ranges
 /// execute `op` after (or as) the faulted operation; update the possibility sets
 fn tolerant_op<K: SimKey>(w: &mut World<K>, op: &Op, poss: &mut Poss, i: usize, faulted: bool, tag: &str) -> Result<(), Failure> {
     let what = if faulted { "the faulted operation" } else { "a later operation" };
+    // an operation is "faulted" when it is the one the first fault was planned for, or when the
+    // (optional) second fault fired while it ran
+    let fired0 = with_sim(|s| s.counts.err_fired);
+    let faulted = move || faulted || with_sim(|s| s.counts.err_fired) > fired0;
     let vio = |class: &str, msg: String| fail(&["C14"], class, i, format!("{tag}: {} ({what}): {msg}", op.short()));
     match op {
         Op::Put { k, c, chunks, abort } => match raw_put(w, *k, *c, chunks, *abort) {
@@ -340,7 +358,7 @@ fn tolerant_op<K: SimKey>(w: &mut World<K>, op: &Op, poss: &mut Poss, i: usize, 
                 Ok(())
             }
             Raw::Err(e) => {
-                if !faulted {
+                if !faulted() {
                     return Err(vio("later-op-failed", format!("failed although the injected error hit an earlier operation: {e}")));
                 }
                 if !*abort {
@@ -369,7 +387,7 @@ fn tolerant_op<K: SimKey>(w: &mut World<K>, op: &Op, poss: &mut Poss, i: usize, 
                     Ok(())
                 }
                 Raw::Err(e) => {
-                    if !faulted {
+                    if !faulted() {
                         return Err(vio("later-op-failed", format!("failed although the injected error hit an earlier operation: {e}")));
                     }
                     poss[*k].insert(None);
@@ -402,7 +420,7 @@ fn tolerant_op<K: SimKey>(w: &mut World<K>, op: &Op, poss: &mut Poss, i: usize, 
                     Ok(())
                 }
                 Raw::Err(e) => {
-                    if !faulted {
+                    if !faulted() {
                         return Err(vio("later-op-failed", format!("failed although the injected error hit an earlier operation: {e}")));
                     }
                     for k in idx {
@@ -438,7 +456,7 @@ fn tolerant_op<K: SimKey>(w: &mut World<K>, op: &Op, poss: &mut Poss, i: usize, 
             match guarded(|| cas.checkpoint().map_err(|e| format!("{e} ({e:?})"))) {
                 Raw::Ok(()) => Ok(()),
                 Raw::Err(e) => {
-                    if faulted {
+                    if faulted() {
                         Ok(())
                     } else {
                         Err(vio("later-op-failed", format!("checkpoint failed although the injected error hit an earlier operation: {e}")))
@@ -456,7 +474,7 @@ fn tolerant_op<K: SimKey>(w: &mut World<K>, op: &Op, poss: &mut Poss, i: usize, 
                 Err(p) => Err(vio("panic", format!("open panicked: {}", panic_msg(p)))),
                 Ok(Ok(())) => Ok(()),
                 Ok(Err(e)) => {
-                    if !faulted {
+                    if !faulted() {
                         return Err(vio("reopen-failed", format!("a clean reopen after the fault fails: {e} ({e:?})")));
                     }
                     // the faulted open is the confined operation; the next open must succeed
